@@ -680,12 +680,18 @@ def q_sample(s, a):
 def q_uni(s, a):
     if s.cls != "Circuit" or s.contract is True:
         raise Reject("only the lazy exact simulator keeps the unitary (eager contraction absorbs gates into the state)")
+    # lazy SWAP / IDEN add no tensors (SWAP only relabels the two wires), so they do not give a wire its operator legs:
+    # follow every wire through the swaps and require each to be touched by a tensor gate
+    wire = list(range(s.N))  # wire[q] = initial qubit whose line currently sits at position q
     touched = set()
     for rec in s.gates:
-        if rec["label"] not in ("SWAP", "IDEN") or rec["ncontrols"]:
-            touched.update(rec["qubits"])  # lazy SWAP / IDEN add no tensors, so they do not give a qubit its operator legs
+        if rec["label"] == "SWAP" and not rec["ncontrols"]:
+            q0, q1 = rec["qubits"]
+            wire[q0], wire[q1] = wire[q1], wire[q0]
+        elif rec["label"] != "IDEN" or rec["ncontrols"]:
+            touched.update(wire[q] for q in rec["qubits"])
     if touched != set(range(s.N)):
-        raise Reject("uni is only compared when every qubit has been touched")
+        raise Reject("uni is only compared when every wire has been touched by a tensor gate")
     U = np.eye(2 ** s.N, dtype=complex)
     for rec in s.gates:
         U = embed(rec["U"], [2] * s.N, rec["qubits"]) @ U
